@@ -191,6 +191,9 @@ def run(rep) -> None:
         jobs, meta = [], []
         for name, doc in docs.items():
             if any(x["diags"] for x in [base[names.index(name)]]):
+                rep.extra.setdefault("permutation_leg_skipped_documents_with_diagnostics", []).append(name)
+                if name == "rich":      # the hand-written family document must stay diagnostics-free, or the leg loses its richest input unnoticed
+                    raise tlc.TlcFailure(f"the rich document produces diagnostics and would be left out of the permutation leg: {base[names.index(name)]['diags'][:2]}")
                 continue
             for k in range(2 if quick else 5):
                 pd = permuted(doc, rnd)
